@@ -450,10 +450,14 @@ fn run_property(cfg: &Cfg) -> Result<Outcome, String> {
                     fl("hash_without_ep-checked-with-ep-present", 5000),
                     fl("transpositions-compared", 5000),
                     fl("cross_route_keys_reached_by_2+_route_kinds", 100),
+                    fl("text-route-boards", 100_000),
                 ],
             },
             || C10,
-            |_, _| {},
+            |cx, _| {
+                let n = cx.budget(400_000, 10_000_000);
+                c10_text_routes(cx, n);
+            },
         ),
         "C13" => run_boards(
             cfg,
